@@ -67,6 +67,7 @@ pub fn checks() -> Vec<Check> {
             st("c01.s6", c01::s6, (0, 0), 3, "extension attribute of every catalogue type at the first/last prototype position x capacity {1,3} x npoints {0,1,4} x one or two registered extensions"),
             st("c01.s7", c01::s7, (0, 0), 3, "every attribute-group subset (3 coordinate kinds x 2^10 group/flag bits, invalid combinations skipped), 5 points, capacity 2"),
             Stage { timeout_s: 120, ..st("c01.s8", c01::s8, (0, 0), 3, "scale: 255/256/257/300 point clouds in one file; 65535/65536/65537 points in one cloud; 300 and 70000 one-point data packets (hooked capacity 1); XYZ + 100..5900 extension records with one point more than a natural data packet takes; 4 bit-packed prototypes x 5 natural capacities + 3 points") },
+            st("c01.s9", c01::s9, (0, 0), 3, "8 prototypes x 0..3 accepted points x capacity {natural,1,2} x 3 kinds of refused call x every subset of positions between the accepted points: count, points and order are those of the accepted calls"),
             st("c01.s2deep", c01::s2deep, (0, 0), 3, "all writer programs of depth exactly 4 (quick: 20 736) / 5 (thorough: 248 832) over a 12-op sub-alphabet (4 blob sizes, 2 images, 6 clouds)"),
             st("c01.s5", c01::s5, (0, 0), 2, "two hooked-capacity clouds around a pad blob at all 255 residues x prototype pairs"),
         ],
@@ -390,7 +391,7 @@ pub fn checks() -> Vec<Check> {
             c14::bounds,
             (2, 3),
             3,
-            "48 attribute-group subsets x 4 sequence kinds; <=2 (quick) / <=3 (thorough) deviations over types, value sets, limit overrides, per-attribute value orders (all 6 orders of 3 distinct values) hooked packet capacity {natural, 1, 2, 3} and one refused add_point call (new extremes in every attribute, wrong type in the last value) before / amid / after the accepted points",
+            "48 attribute-group subsets x 4 sequence kinds; <=2 (quick) / <=3 (thorough) deviations over types, value sets, limit overrides, per-attribute value orders (all 6 orders of 3 distinct values) hooked packet capacity {natural, 1, 2, 3} and one refused add_point call (new extremes in every attribute, wrong type in the last value) before / amid / after the accepted points, default limits cleared explicitly before a possible override",
         )],
         extra: None,
         rule: "deviation-bounded DFS: all cases with at most d non-default choices; bounds compared numerically with an independent fold over the harness's point list; non-trivial = cloud with points",
